@@ -332,9 +332,13 @@ CHECKS["C05"] = dict(
                 "With().Ctx, With().Stack; 6-20 nodes quick, up to 46 thorough) in three creation/use orders (all first; interleaved; re-log the whole "
                 "ancestor chain and the siblings after every derivation): every event of every node is compared with the model of that node's own "
                 "path (fields, hooks, level, stack flag, destination) and every GetCtx value read by hooks and by object marshalers (on the event, "
-                "inside Arr().Object, inside Dict().Object) with the context given to that logger/event or background; batches of events are kept "
+                "inside Arr().Object, inside Dict().Object, through Fields, Func, EmbedObject, Interface, a LogArrayMarshaler and Errs) with the "
+                "context given to that logger/event or background; every Sample step installs a counting sampler with an identity (one in six "
+                "rejects): starting an event must consult exactly the sampler of the node's own path, once, iff the level gate passed; Output goes to "
+                "LevelWriters and plain io.Writers and the level handed to WriteLevel is compared; batches of events are kept "
                 "open and finalized in permuted order so that pooled events change hands; one tree in ten is also exercised by one goroutine per "
-                "node while children are derived concurrently, and the whole check is repeated under the race detector."),
+                "node while With / Hook / Level / Output children are derived from the shared nodes concurrently - the nodes' and the children's "
+                "events and the samplers' consultation counts are judged - and the whole check is repeated under the race detector."),
     technique="runtime monitoring: per-node derivation-path model compared with every emitted event, GetCtx probes, race detector",
     stages=lambda tier: [dict(variant="vh", cmd="c05", shards=16, timeout=3000),
                          dict(variant="vh-race", cmd="c05", shards=16, timeout=3000, race=True, args=["-scale", "0.1"])],
@@ -343,7 +347,7 @@ CHECKS["C05"] = dict(
     assumptions=["UpdateContext is applied only to a logger just produced by With() (as the statement requires)",
                  "a Dict()/Arr().Object() event has no Go context of its own, so background is the specified GetCtx value there"],
     replay=replay_index("c05"),
-    require=dict(events_checked=10000, step_Output=50, concurrent_events_checked=500),
+    require=dict(events_checked=10000, step_Output=50, step_Sample=50, concurrent_events_checked=500),
 )
 
 
